@@ -93,6 +93,10 @@ def arg_code(atom, n, v, prefix):
         if atom.form == "fixed":
             return ["%s *%s = NULL;" % (atom.t.cname, z)], ["&" + z], [obs_arr(atom.t, z, 3)]
         return ["%s *%s = NULL; int %s_n = -1;" % (atom.t.cname, z, z)], ["&" + z, "&%s_n" % z], [obs_arr(atom.t, z, "%s_n" % z)]
+    if isinstance(atom, A.PtrPtrIn):
+        lit = lambda x: A.clit(atom.t, x)
+        return ["%s %s_r1[2] = {%s, %s}, %s_r2[2] = {%s, %s}; %s *%s[2] = {%s_r1, %s_r2};" % (
+            atom.t.cname, z, lit(v[0]), lit(v[1]), z, lit(v[2]), lit(v[3]), atom.t.cname, z, z, z)], [z], []
     if isinstance(atom, A.VoidPtr):
         return ["int %s = %d;" % (z, v)], ["&" + z], ["obs_i(%s);" % z]
     if isinstance(atom, A.StrArrIn):
